@@ -147,3 +147,30 @@ SCALING_FAMILIES = ["tags_then_scenario", "tags_then_junk", "tags_then_eof", "co
                     "one_line_many_cells", "one_line_many_tags", "scenarios", "examples_rows",
                     "description_lines", "blank_lines", "comments_before_feature", "long_line_text",
                     "language_like_comments", "whitespace_only_line", "rules"]
+
+
+# ---------------------------------------------------------------- corpus splicing / character mutation
+
+def spliced(rnd, texts):
+    """Mutation-based input: lines of two corpus documents spliced, then character-level edits."""
+    a = rnd.choice(texts).split("\n")
+    b = rnd.choice(texts).split("\n")
+    i, j = rnd.randint(0, len(a)), rnd.randint(0, len(b))
+    lines = a[:i] + b[j:j + rnd.randint(0, 12)] + a[i + rnd.randint(0, 3):]
+    text = "\n".join(lines)
+    for _ in range(rnd.choice([0, 1, 2, 5])):
+        if not text:
+            break
+        k = rnd.randrange(len(text))
+        op = rnd.random()
+        if op < 0.3:
+            text = text[:k] + text[k + 1:]
+        elif op < 0.6:
+            text = text[:k] + rnd.choice(FRAGMENTS) + text[k:]
+        elif op < 0.8:
+            text = text[:k] + text[k].swapcase() + text[k + 1:]
+        else:
+            m = rnd.randrange(len(text))
+            k, m = min(k, m), max(k, m)
+            text = text[:k] + text[m:] + text[k:m]
+    return text
